@@ -395,6 +395,7 @@ def run_check(pid, tier, seed):
         source = itertools.chain(corpus.get(su.name, []), su.gen(tier, random.Random(rng.getrandbits(64))))
         mism, orc_fail = [], []
         dist, nreq, nnontriv, samples = {}, 0, 0, []
+        healed = []
         proj_i = su.project() if su.project else (lambda req, line: line)
         proj_m = su.project() if su.project else (lambda req, line: line)
         # requests are processed in batches so that exhaustive enumerations of tens of millions of cases fit in memory
@@ -430,6 +431,12 @@ def run_check(pid, tier, seed):
                     if k:
                         known_lines.append((k, req))
                         continue
+                    if bad[0] == "mismatch" and su.oracle and su.model and match_known(known, pid, su.name, req, mo, mod, mo):
+                        # the model reproduces a known defect on this request (its own answer is the recorded finding) while the
+                        # implementation's answer satisfies the property oracle: the defect no longer shows in the code.
+                        # That is not a violation; it is noted in the evidence.
+                        healed.append(req)
+                        continue
                     if len(orc_fail) + len(mism) < 200:
                         (orc_fail if bad[0] == "oracle" else mism).append((req, io, mo, bad[1]))
             if len(samples) < 6:
@@ -453,7 +460,10 @@ def run_check(pid, tier, seed):
                           "mismatches": len(mism), "oracle_failures": len(orc_fail), "distribution": top_dist(dist),
                           "exhaustive": bool(su.exhaustive and su.exhaustive(tier)), "rule": su.rule + " (distinct counted per batch of %d requests)" % BATCH,
                           "samples": samples,
+                          "known_defect_not_reproduced": len(healed),
                           "wall_s": round(time.time() - ts, 2)})
+        if healed:
+            print("NOTE: property=%s suite=%s: on %d request(s) the model answers with a recorded known finding but the implementation's answer satisfies the property (the defect no longer shows), e.g. %s" % (pid, su.name, len(healed), clip(healed[0])))
     seen = set()
     for k, req in known_lines:
         if k["id"] not in seen:
